@@ -298,9 +298,12 @@ def symptom_key(ex, k):
         why, detail = ev.get("why", "?"), ev.get("detail", "")
         lib = library_frames(ev.get("frames", []))
         if why == "stack-overflow":
+            # named by the classes whose member functions form the recursion cycle (which member is on top when the stack
+            # runs out is incidental)
             cnt = collections.Counter(lib)
             cyc = sorted(f for f, n in cnt.items() if n >= 3) or sorted(set(lib[:6]))
-            return "stack-overflow: recursion through " + " / ".join(cyc)
+            owners = sorted({f.rsplit("::", 1)[0] if "::" in f else f for f in cyc})
+            return "stack-overflow: unbounded recursion in " + " / ".join(owners)
         if why == "sanitizer":
             kind = detail
             if detail == "ubsan":
